@@ -7,9 +7,9 @@ variable {s s' : St}
 theorem preStart_congr (h : s'.cpc = s.cpc) : preStart s' = preStart s := by unfold preStart; rw [h]
 
 theorem mC_congr (h1 : s'.cpc = s.cpc) (h2 : s'.cur = s.cur) (h3 : s'.callsLeft = s.callsLeft) (h4 : s'.batch = s.batch)
-    (h5 : s'.woken = s.woken) (h6 : s'.procs.length = s.procs.length) : mC s' = mC s := by
-  unfold mC futW pendCall fresh
-  rw [preStart_congr h1, h1, h2, h3, h4, h5, h6]
+    (h5 : s'.woken = s.woken) (h6 : s'.procs.length = s.procs.length) (h7 : s'.finished = s.finished) : mC s' = mC s := by
+  unfold mC futW pendCall fresh midB
+  rw [preStart_congr h1, h1, h2, h3, h4, h5, h6, h7]
 
 theorem mF_congr (h1 : s'.fpc = s.fpc) (h2 : s'.fTotal = s.fTotal) (h3 : s'.fNext = s.fNext) (h4 : s'.fAlive = s.fAlive) :
     mF s' = mF s := by
@@ -31,7 +31,7 @@ theorem meas_stepW {wid : Nat} (hf : NoFaults s.cfg) (hwc : WellCfg s.cfg) (hL :
     meas s' < meas s := by
   obtain ⟨w, w', hst⟩ := stepW_cases hf hwc hL h
   have hs := hst.same
-  have hmc := mC_congr hs.cpc hs.cur hs.callsLeft hs.batch hs.woken (by rw [hs.procs])
+  have hmc := mC_congr hs.cpc hs.cur hs.callsLeft hs.batch hs.woken (by rw [hs.procs]) hs.finished
   have hmf := mF_congr hs.fpc hs.fTotal hs.fNext hs.fAlive
   have hmw := mW_upd hL hst.mem hst.workers
   unfold meas
@@ -102,7 +102,7 @@ theorem meas_lt_FQ (h1 : mC s' = mC s) (h2 : mW s' = mW s) (h3 : mR s' = mR s) (
 /-- closes the frame part of a feeder step -/
 macro "fstep" : tactic => `(tactic|
   (refine meas_lt_FQ ?_ ?_ ?_ ?_
-   · exact mC_congr rfl rfl rfl rfl rfl rfl
+   · exact mC_congr rfl rfl rfl rfl rfl rfl rfl
    · exact mW_congr rfl
    · exact mR_congr rfl rfl))
 
@@ -230,20 +230,20 @@ theorem meas_stepR (hL : LInv s) (h : stepR s = some s') : meas s' < meas s := b
       · cases h
       · rename_i r hq
         simp only [Option.some.injEq] at h; subst h
-        refine meas_lt_WR (mC_congr rfl rfl rfl rfl rfl rfl) (mF_congr rfl rfl rfl rfl) (mQ_congr rfl rfl) (mWR_lt rfl ?_)
+        refine meas_lt_WR (mC_congr rfl rfl rfl rfl rfl rfl rfl) (mF_congr rfl rfl rfl rfl) (mQ_congr rfl rfl) (mWR_lt rfl ?_)
         unfold mR
         simp only [hr, hq, rOff, someCount_cons_none, noneCount_cons_none]
         omega
       · rename_i wid r hq
         simp only [Option.some.injEq] at h; subst h
-        refine meas_lt_WR (mC_congr rfl rfl rfl rfl rfl rfl) (mF_congr rfl rfl rfl rfl) (mQ_congr rfl rfl) (mWR_lt rfl ?_)
+        refine meas_lt_WR (mC_congr rfl rfl rfl rfl rfl rfl rfl) (mF_congr rfl rfl rfl rfl) (mQ_congr rfl rfl) (mWR_lt rfl ?_)
         unfold mR
         simp only [hr, hq, rOff, someCount_cons_some, noneCount_cons_some]
         omega
     case join wid =>
       split at h
       · simp only [Option.some.injEq] at h; subst h
-        exact meas_lt_WR (mC_congr rfl rfl rfl rfl rfl (by simp)) (mF_congr rfl rfl rfl rfl) (mQ_congr rfl rfl)
+        exact meas_lt_WR (mC_congr rfl rfl rfl rfl rfl (by simp) rfl) (mF_congr rfl rfl rfl rfl) (mQ_congr rfl rfl)
           (mWR_join_lt hr rfl rfl rfl)
       · cases h
     case start nw =>
@@ -253,7 +253,7 @@ theorem meas_stepR (hL : LInv s) (h : stepR s = some s') : meas s' < meas s := b
         simp only [Option.some.injEq] at h; subst h
         obtain ⟨hwm, hwid⟩ := getWorker_some hg
         have hpc : w.pc = .notStarted := hL.rStarting nw hr w hwm hwid
-        exact meas_lt_WR (mC_congr rfl rfl rfl rfl rfl rfl) (mF_congr rfl rfl rfl rfl) (mQ_congr rfl rfl)
+        exact meas_lt_WR (mC_congr rfl rfl rfl rfl rfl rfl rfl) (mF_congr rfl rfl rfl rfl) (mQ_congr rfl rfl)
           (mWR_start_lt hL hwm hpc hr rfl rfl rfl)
 
 end WindVerif.Pool
